@@ -76,6 +76,7 @@ type Gen struct {
 	notes     []string
 	unsupported string
 	zarrs []string
+	fnConsts []string
 	ifaceHook func(sym, method string, i int, sorts []string, rsort string)
 }
 
@@ -370,6 +371,24 @@ func (g *Gen) constArray(keySort string, t types.Type) Term {
 	return name
 }
 
+// boxTerm: a concrete value converted to an interface (injective per dynamic type, tagged with the type).
+func (g *Gen) boxTerm(t types.Type, ifaceSort string, v Term, w *World) Term {
+	xs := g.sortOf(t)
+	g.addSort(ifaceSort, fmt.Sprintf("(declare-sort %s 0)", ifaceSort))
+	fn := "box_" + sanitize(xs) + "_" + sanitize(ifaceSort)
+	dyn := "dyn_" + sanitize(ifaceSort)
+	if !g.funSeen[dyn] {
+		g.funSeen[dyn] = true
+		g.sortDecl = append(g.sortDecl, fmt.Sprintf("(declare-fun %s (%s) Int)", dyn, ifaceSort))
+	}
+	if !g.funSeen[fn] {
+		g.funSeen[fn] = true
+		g.sortDecl = append(g.sortDecl, fmt.Sprintf("(declare-fun %s (%s) %s)", fn, xs, ifaceSort))
+		g.sortDecl = append(g.sortDecl, fmt.Sprintf("(assert (forall ((x %s)) (! (= (%s (%s x)) %d) :pattern ((%s x)))))", xs, dyn, fn, w.typeTag(t), fn))
+	}
+	return "(" + fn + " " + v + ")"
+}
+
 func (g *Gen) needErr() {
 	g.addSort("Err", "(declare-sort Err 0)\n(declare-fun err_nil () Err)")
 }
@@ -493,6 +512,14 @@ func (g *Gen) script(extra []string) string {
 	}
 	if e, ok := g.lits[""]; ok {
 		fmt.Fprintf(&b, "(assert (forall ((s Str)) (! (=> (= (str_len s) 0) (= s %s)) :pattern ((str_len s)))))\n", e)
+	}
+	if len(g.fnConsts) > 1 {
+		fmt.Fprintf(&b, "(assert (distinct %s))\n", strings.Join(g.fnConsts, " "))
+	}
+	if len(g.fnConsts) > 0 && g.funSeen["zero_Fn"] {
+		for _, c := range g.fnConsts {
+			fmt.Fprintf(&b, "(assert (not (= %s zero_Fn)))\n", c)
+		}
 	}
 	for _, d := range g.zarrs {
 		b.WriteString(d + "\n")
